@@ -450,6 +450,10 @@ func (l *irLoader) unwrapFuncRefExpr(filter ir.FilterExpr) (*types.Func, error) 
 		}
 		pkgName := pkgID.Name
 		typeName := pkgAndType.Sel.Name
+		// Like in type patterns, the package name is resolved through the imports table.
+		if pkgPath, ok := l.itab.Lookup(pkgName); ok {
+			pkgName = pkgPath
+		}
 		fqn := pkgName + "." + typeName
 		typ, err := l.state.FindType(l.importer, l.pkg, fqn)
 		if err != nil {
